@@ -14,7 +14,12 @@ package realm
 // metadata is issued while the first is running (it must be refused and must change
 // nothing: packets of the refused metadata always reach the reader, the running attempt
 // keeps its own metadata in the registry and is still completed by its own peer's packet
-// only). Noise packets (QUIC-like, near-miss punch of X, punch of a foreign
+// only). Every case also issues one Respond that the code must REFUSE (or end at once):
+// no / invalid / family-mismatched peer addresses, forced family the peer has no address
+// of, negative timeout, negative interval, malformed metadata, empty id, context already
+// cancelled. After it returned: the registry has no entry for that id, punch packets
+// under that metadata reach the reader, and a later Respond with the same id is served
+// normally (not "duplicate") and unregisters when it ends. Noise packets (QUIC-like, near-miss punch of X, punch of a foreign
 // attempt) are injected throughout.
 //
 // Oracles:
@@ -201,6 +206,41 @@ func vfC20ServerCase(t *testing.T, k *vfKit, caseID string, r *rand.Rand) {
 			}
 		}
 	}
+	// a Respond call that must be refused (or end at once), then a valid one with the same id
+	refKinds := []string{"no-peers", "invalid-peers", "family-mismatch", "forced-family-mismatch", "neg-timeout", "neg-interval", "bad-metadata", "empty-id", "cancelled-ctx"}
+	refKind := refKinds[r.Intn(len(refKinds))]
+	refID := caseID + "-ref"
+	refMeta := vfC20RandMeta(r)
+	refPeer := netip.AddrPortFrom(netip.AddrFrom4([4]byte{203, 0, 113, 77}), uint16(31000+r.Intn(1000)))
+	refAt := time.Duration(1+r.Intn(400)) * time.Millisecond
+	ref2At := refAt + time.Duration(60+r.Intn(140))*time.Millisecond
+	ref2Timeout := time.Duration(20+r.Intn(180)) * time.Millisecond
+	ref2Hello := time.Duration(0)
+	if r.Intn(2) == 0 {
+		ref2Hello = time.Duration(1+r.Intn(int(ref2Timeout/time.Millisecond)-1)) * time.Millisecond
+	}
+	ref2End := ref2At + ref2Timeout
+	if ref2Hello > 0 {
+		ref2End = ref2At + ref2Hello
+	}
+	rep["refused"] = map[string]any{"id": refID, "kind": refKind, "at": refAt, "metadata": refMeta.String(), "peer": refPeer.String(),
+		"second_respond_at": ref2At, "second_timeout": ref2Timeout, "second_hello_at": ref2Hello}
+	for j := 0; j < 2+r.Intn(2); j++ { // after the refusal, before the second Respond
+		seq++
+		var from net.Addr
+		if j == 0 {
+			from = udpAddrFromAddrPort(refPeer)
+		}
+		at := refAt + time.Duration(1+r.Intn(50))*time.Millisecond
+		tl = append(tl, inj{at, mk("punch-after-refused-respond", vfC20PunchValid(r, seq, refMeta), from), true, -1})
+	}
+	if ref2Hello > 0 {
+		seq++
+		tl = append(tl, inj{ref2At + ref2Hello, mk("punch-peer-hello-ref2", vfC20RefEncodeValid(refMeta, 1, vfC20Tag(seq), vfC20RandBytes(r, vfC20PadLen(r))), udpAddrFromAddrPort(refPeer)), false, -1})
+	}
+	seq++
+	tl = append(tl, inj{ref2End + time.Duration(1+r.Intn(30))*time.Millisecond, mk("punch-after-return", vfC20PunchValid(r, seq, refMeta), nil), true, -1})
+
 	// duplicate-id Respond with other metadata while attempt dupOf is running
 	dupOf, dupMeta := -1, vfC20RandMeta(r)
 	var dupAt time.Duration // absolute
@@ -264,6 +304,61 @@ func vfC20ServerCase(t *testing.T, k *vfKit, caseID string, r *rand.Rand) {
 		regAfter  PunchMetadata
 		regExists bool
 	}
+	type refOutT struct {
+		res       PunchResult
+		err       error
+		at        time.Duration
+		done      bool
+		regExists bool
+		spExists  bool
+	}
+	refOut, ref2Out := &refOutT{}, &refOutT{}
+	go func() {
+		time.Sleep(refAt)
+		id, meta, peersArg, cfg, cctx := refID, refMeta.PM(), []netip.AddrPort{refPeer}, PunchConfig{Timeout: 500 * time.Millisecond, Interval: 50 * time.Millisecond}, ctx
+		switch refKind {
+		case "no-peers":
+			peersArg = nil
+		case "invalid-peers":
+			peersArg = []netip.AddrPort{{}, netip.AddrPortFrom(refPeer.Addr(), 0)}
+		case "family-mismatch": // peer advertised only IPv6, the socket is bound to an IPv4 address
+			peersArg = []netip.AddrPort{netip.MustParseAddrPort("[2001:db8::77]:31000")}
+		case "forced-family-mismatch":
+			cfg.Family = AddrFamilyIPv6
+		case "neg-timeout":
+			cfg.Timeout = -time.Millisecond
+		case "neg-interval":
+			cfg.Interval = -time.Millisecond
+		case "bad-metadata":
+			meta.Nonce = meta.Nonce[:30]
+		case "empty-id":
+			id = ""
+		case "cancelled-ctx":
+			c2, cancel := context.WithCancel(ctx)
+			cancel()
+			cctx = c2
+		}
+		res, err := sp.Respond(cctx, id, local, peersArg, meta, cfg)
+		refOut.res, refOut.err, refOut.at, refOut.done = res, err, time.Since(start), true
+		w.mu.RLock()
+		_, refOut.regExists = w.attempts[refID]
+		if _, e := w.attempts[""]; e {
+			refOut.regExists = true
+		}
+		w.mu.RUnlock()
+		sp.mu.Lock()
+		_, refOut.spExists = sp.attempts[refID]
+		sp.mu.Unlock()
+	}()
+	go func() {
+		time.Sleep(ref2At)
+		res, err := sp.Respond(ctx, refID, local, []netip.AddrPort{refPeer}, refMeta.PM(), PunchConfig{Timeout: ref2Timeout, Interval: 25 * time.Millisecond})
+		ref2Out.res, ref2Out.err, ref2Out.at, ref2Out.done = res, err, time.Since(start), true
+		w.mu.RLock()
+		_, ref2Out.regExists = w.attempts[refID]
+		w.mu.RUnlock()
+	}()
+
 	dupOut := &dupOutT{}
 	if dupOf >= 0 {
 		go func() {
@@ -353,6 +448,32 @@ func vfC20ServerCase(t *testing.T, k *vfKit, caseID string, r *rand.Rand) {
 			vfC20V(k, "realm:attempt-left-registered", rep, "attempt %s is still in the registry after Respond returned", pl.ID)
 		}
 	}
+	k.Count("ev_refused_responds", 1)
+	k.Count("refused_kind_"+refKind, 1)
+	switch {
+	case !refOut.done:
+		vfC20V(k, "realm:refused-respond-hangs", rep, "Respond(%s) of kind %s had not returned at the end of the case", refID, refKind)
+	case refOut.err == nil || refOut.at != refAt || (refKind == "cancelled-ctx" && !errors.Is(refOut.err, context.Canceled)):
+		vfC20V(k, "realm:respond-not-refused", rep, "Respond(%s) of kind %s returned (%+v, %v) at %v, issued at %v; want an immediate error", refID, refKind, refOut.res, refOut.err, refOut.at, refAt)
+	default:
+		k.Count("ev_refused_ok", 1)
+		if refOut.regExists || refOut.spExists {
+			vfC20V(k, "realm:attempt-left-registered", rep,
+				"Respond(%s) was refused (%s: %v) but the attempt is still registered afterwards (PunchPacketConn registry: %v, ServerPuncher: %v)", refID, refKind, refOut.err, refOut.regExists, refOut.spExists)
+		}
+	}
+	switch {
+	case !ref2Out.done:
+		vfC20V(k, "realm:respond-never-returns", rep, "second Respond(%s) had not returned at the end of the case", refID)
+	case ref2Hello > 0 && (ref2Out.err != nil || ref2Out.res.PeerAddr != refPeer || ref2Out.res.Packet.Type != PunchPacketHello || ref2Out.at != ref2At+ref2Hello):
+		vfC20V(k, "realm:respond-after-refusal", rep, "Respond(%s) issued after the refused one (%s) returned (%+v, %v) at %v; want its peer's hello at %v (an id whose Respond was refused is not in use)", refID, refKind, ref2Out.res, ref2Out.err, ref2Out.at, ref2At+ref2Hello)
+	case ref2Hello == 0 && (!errors.Is(ref2Out.err, ErrPunchTimeout) || ref2Out.at != ref2At+ref2Timeout):
+		vfC20V(k, "realm:respond-after-refusal", rep, "Respond(%s) issued after the refused one (%s) returned (%+v, %v) at %v; want ErrPunchTimeout at %v (an id whose Respond was refused is not in use)", refID, refKind, ref2Out.res, ref2Out.err, ref2Out.at, ref2At+ref2Timeout)
+	case ref2Out.regExists:
+		vfC20V(k, "realm:attempt-left-registered", rep, "attempt %s is still in the registry after its second Respond returned", refID)
+	default:
+		k.Count("ev_respond_after_refusal_ok", 1)
+	}
 	if dupOf >= 0 {
 		pl := plans[dupOf]
 		k.Count("ev_duplicate_responds", 1)
@@ -380,6 +501,9 @@ func vfC20ServerCase(t *testing.T, k *vfKit, caseID string, r *rand.Rand) {
 				okAny = true
 			}
 		}
+		if _, _, ok := vfC20RefDecode(s.Data, refMeta); ok && s.To == refPeer.String() {
+			okAny = true
+		}
 		if !okAny {
 			vfC20V(k, "realm:respond-writes-garbage", map[string]any{"case_id": caseID, "to": s.To, "hex": vfHex(s.Data)}, "Respond wrote %d bytes to %s that are not a punch packet of the attempt whose peer that is", len(s.Data), s.To)
 			break
@@ -401,11 +525,15 @@ func vfC20ServerCase(t *testing.T, k *vfKit, caseID string, r *rand.Rand) {
 			key = "realm:divert-after-remove"
 			what = "was sent after Respond had returned (attempt removed) and did not reach the reader"
 		}
+		if p.Kind == "punch-after-refused-respond" {
+			key = "realm:diverted-after-refused-respond"
+			what = "is a punch packet under the metadata of a Respond call that had been REFUSED (" + refKind + ") and did not reach the reader"
+		}
 		if p.Kind == "punch-refused-duplicate" {
 			key = "realm:diverted-under-refused-metadata"
 			what = "is a punch packet under the metadata of a Respond call that was REFUSED as a duplicate (never a registered attempt) and did not reach the reader"
 		}
-		vfC20V(k, key, map[string]any{"case_id": caseID, "plans": plans, "duplicate": rep["duplicate"], "packet": vfC20PktBrief(p)}, "packet #%d (%s) %s", p.Seq, p.Kind, what)
+		vfC20V(k, key, map[string]any{"case_id": caseID, "plans": plans, "duplicate": rep["duplicate"], "refused": rep["refused"], "packet": vfC20PktBrief(p)}, "packet #%d (%s) %s", p.Seq, p.Kind, what)
 		break
 	}
 	if gi == len(expectPass) && len(gots) > gi {
@@ -413,7 +541,7 @@ func vfC20ServerCase(t *testing.T, k *vfKit, caseID string, r *rand.Rand) {
 			"the reader received %d packets, only %d were expected to pass (a peer's punch packet of a running attempt reached the reader)", len(gots), len(expectPass))
 	}
 	gmu.Unlock()
-	k.Nontrivial(fmt.Sprintf("%s/%s/%s", caseID, plans[0].Mode, plans[1].Mode))
+	k.Nontrivial(fmt.Sprintf("%s/%s/%s/%s", caseID, plans[0].Mode, plans[1].Mode, refKind))
 
 	cancelAll()
 	close(in.ch)
